@@ -333,4 +333,7 @@ pub fn run(ctx: &mut Ctx) {
         }
     });
     ctx.require(&r, &["rendered", "inapplicable_token_error"]);
+
+    // hidden state: every ordered pair of format calls on a fresh thread against the lone call
+    crate::histpairs::pairwise(ctx, "C04", "compile_and_format", crate::histpairs::calls_format());
 }
